@@ -836,7 +836,7 @@ class Grammar:
 
 
 def gen_contract(rng, name="T", ntests=3, pool=(), with_helper=None, bytes_sizes=None, array_sizes=None,
-                 panic_codes=(1,), refine=True, touch=False, loops=False, siblings=None, subst=None, jumps=None, tails=None) -> Generated:
+                 panic_codes=(1,), refine=True, touch=False, loops=False, siblings=None, subst=None, jumps=None, tails=None, creates=None) -> Generated:
     """setUp() storing constants (optionally deploying a helper whose address is kept in a slot) + `ntests` check functions,
     alternately reachable / unreachable, at least one with a dynamic parameter and one needing refinement per few contracts."""
     g = Grammar(rng, pool, bytes_sizes, array_sizes, panic_codes, refine)
@@ -880,6 +880,10 @@ def gen_contract(rng, name="T", ntests=3, pool=(), with_helper=None, bytes_sizes
         checks.append(gen_loop_check(rng, ntests, g))
     if tail_chk is not None:
         checks.append(tail_chk)
+    if creates:
+        for cv in (creates if isinstance(creates, list) else [creates]):
+            g.n += 1
+            checks.append(gen_create_check(rng, ntests + 5, g, **(cv if isinstance(cv, dict) else {})))
     if jumps:
         g.n += 1
         checks.append(gen_jump_check(rng, ntests + 3, g, **(jumps if isinstance(jumps, dict) else {})))
@@ -1001,6 +1005,47 @@ def gen_tail_check(rng, idx, g: "Grammar", callee=None, op=None) -> TailCheck:
                     callee, op, short, window)
     chk._c = c
     return chk
+
+
+@dataclass
+class CreateCheck(Check):
+    """`new C(arg)` with arg derived from the test's parameter; C's constructor reads the argument appended to the init code and
+    ends in Panic(code) when arg == c, otherwise deploys; when the creation fails the caller either bubbles the revert data up
+    (`returndatacopy(0, 0, returndatasize()); revert(0, returndatasize())`: the test then ends in that Panic) or swallows it."""
+    c: int = 7
+    bubble: bool = True
+    derive: str = "x"        # x | x+1 | x&0xff
+    create2: bool = False
+
+    def body(self) -> list:
+        ctor = asm.assemble([("push", 0x20), ("push", 0x20), "CODESIZE", "SUB", ("push", 0), "CODECOPY"] +
+                            asm.if_then(asm.eq_const([("push", 0), "MLOAD"], self.c), asm.panic(self.panic_code)) +
+                            [("push", 0), ("push", 0), "RETURN"])
+        x = asm.calldata_arg(0)
+        arg = x + ([("push", 1), "ADD"] if self.derive == "x+1" else [("push", 0xFF), "AND"] if self.derive == "x&0xff" else [])
+        blob, fail = asm.fresh("ctor"), asm.fresh("cfail")
+        n = len(ctor)
+        items = list(self.prologue) + [("push", n), ("ref", blob), ("push", 0), "CODECOPY"] + arg + [("push", n), "MSTORE"]
+        items += ([("push", 0x5A17)] if self.create2 else []) + [("push", n + 32), ("push", 0), ("push", 0), "CREATE2" if self.create2 else "CREATE"]
+        items += ["ISZERO", ("ref", fail), "JUMPI", "STOP", ("label", fail)]
+        if self.bubble:
+            items += ["RETURNDATASIZE", ("push", 0), ("push", 0), "RETURNDATACOPY", "RETURNDATASIZE", ("push", 0), "REVERT"]
+        else:
+            items += [("push", 1), ("push", 0x40), "MSTORE", "STOP"]
+        return items + [("mark", blob), ("raw", ctor)]
+
+
+def gen_create_check(rng, idx, g: "Grammar", bubble=None, derive=None, create2=None) -> CreateCheck:
+    bubble = rng.random() < 0.7 if bubble is None else bubble
+    derive = derive or rng.choice(["x", "x+1", "x&0xff"])
+    create2 = rng.random() < 0.3 if create2 is None else create2
+    c = rng.choice([7, 1, 42, 200]) if derive == "x&0xff" else (g.word() or 3)
+    wx = c if derive == "x" else (c - 1) % W if derive == "x+1" else c + rng.choice([0, 0x100, 1 << 200])
+    lhs = Arg(0) if derive == "x" else Bin("ADD", Arg(0), Const(1)) if derive == "x+1" else Bin("AND", Arg(0), Const(0xFF))
+    return CreateCheck(f"check_{idx}_create_{'r' if bubble else 'u'}{g.n}", [Param("uint256", "x")], [Bin("EQ", lhs, Const(c))], "panic", 1,
+                       bubble, [wx] if bubble else None, None, "and",
+                       f"constructor-panic:{'bubbled' if bubble else 'swallowed'}:{derive}:{'create2' if create2 else 'create'}", True, [], None,
+                       c, bubble, derive, create2)
 
 
 @dataclass
